@@ -157,7 +157,10 @@ func (g *gen) numExpr(d int) ex {
 				}
 				return ex{"2.5", pPrimary}
 			case 2:
-				return ex{vlib.Pick(g.rng, []string{"1.5e3", "0.25", "1e-7", "3.14159", "-0.5", "1e100"}), pPrimary}
+				// fractions, exponents, and whole values on both sides of 1e6 and 1e21
+			// (where shortest formatting switches to exponent notation)
+			return ex{vlib.Pick(g.rng, []string{"1.5e3", "0.25", "1e-7", "3.14159", "-0.5", "1e100", "999999.0",
+				"1000000.0", "2.5e6", "1e21", "-3e7", "123456789.0", "1234567.5", "0.00001", "1E6", "5e-324", "1.7976931348623157e308"}), pPrimary}
 			case 3:
 				return ex{"float($n)", pPrimary}
 			default:
@@ -925,6 +928,10 @@ func main() {
 		"counter c\n/x/ && (1 > 0 || 2 > 1) {\n  c++\n}\n",
 		"counter c by \"a b\"\n/(x)/ {\n  c[$1]++\n}\n",
 		"counter c by a limit -1\n/(x)/ {\n  c[$1]++\n}\n",
+		// one level for * / % **: a power as the right operand keeps its parentheses
+		"gauge g\n/x/ {\n  g = 2 * (3 ** 2)\n  g = 8 / (2 ** 2)\n  g = 7 % (2 ** 2)\n  g = 2 ** (3 * 2)\n  g = 2 ** 3 ** 2\n  g = 2 ** (3 ** 2)\n}\n",
+		// whole-valued floats around the switch to exponent notation
+		"gauge g\n/x/ {\n  g = 999999.0\n  g = 1000000.0\n  g = 2.5e6\n  g = 1e21\n  g = -3e7\n  g = 1e100 + 0.5\n}\n",
 	} {
 		if _, ok := checkProgram(out, w, "witness"); !ok {
 			out.Violate("witness-rejected", "a fixed witness program is no longer accepted by the checker", map[string]any{"kind": "program", "src": vlib.Q(w)})
